@@ -117,6 +117,9 @@ impl MT940 {
             Some(forward_balances)
         };
 
+        // Reject content left after the last field of the message
+        verify_parser_complete(&parser)?;
+
         Ok(MT940 {
             field_20,
             field_21,
